@@ -20,7 +20,7 @@
    it only shows in the order of the JSON object members, which the check canonicalises.
 
    Not modelled: time_waiting_for_ai (chrono timestamp arithmetic, not part of C19). *)
-From Verif Require Import Base.Str.
+From Verif Require Import Base.Str Gen.GenStats.
 
 (* ---------- outcomes ---------- *)
 Inductive sres (A : Type) := SOk (a : A) | SPanic.
@@ -300,6 +300,28 @@ Definition stats_for_commit (m : ovf) (ignored : str -> bool) (numstat : str) (n
     (raw_added : list (str * list N)) (is_merge : bool) : sres stats :=
   sbind (parse_numstat m ignored numstat) (fun g =>
     commit_stats m ignored n raw_added is_merge (fst g) (snd g)).
+
+(* ---------- the inputs: which git commands produce them ---------- *)
+(* The model takes as inputs [raw] (path -> added lines) and the numstat text.  They are what
+   `git diff -U0 <parent> <commit>` and `git show --numstat --format= <commit>` print WITHOUT
+   pairing of renamed / copied paths: every line of a renamed file is an added line of the new
+   path in both, which is also how the note counts.  The translator reads the literal options of
+   Repository::diff_added_lines and get_git_diff_stats and of the internal git profiles they run
+   under (Gen/GenStats.v); the fact below is what the agreement hypothesis ga = added_count and
+   the oracle of the check (git diff -U0 --no-renames) rest on. *)
+Definition has_opt (o : str) (l : list str) : bool := existsb (str_eqb o) l.
+Definition opt_no_renames : str := [45; 45; 110; 111; 45; 114; 101; 110; 97; 109; 101; 115].
+Definition opt_no_color : str := [45; 45; 110; 111; 45; 99; 111; 108; 111; 114].
+Definition opt_U0 : str := [45; 85; 48].
+Definition opt_numstat : str := [45; 45; 110; 117; 109; 115; 116; 97; 116].
+
+Definition inputs_unpaired : bool :=
+  has_opt opt_U0 diff_added_lines_args
+  && has_opt opt_no_renames (diff_added_lines_args ++ diff_added_lines_profile)
+  && has_opt opt_no_color (diff_added_lines_args ++ diff_added_lines_profile)
+  && has_opt opt_numstat numstat_args
+  && has_opt opt_no_renames (numstat_args ++ numstat_profile)
+  && has_opt opt_no_color (numstat_args ++ numstat_profile).
 
 (* ---------- specification-side notions (used by the statements of C19) ---------- *)
 Definition in_range (r : range) (x : N) : bool :=
